@@ -132,6 +132,7 @@ def tlc_trace(module, events, tag, nshards=None, timeout=1800, constants="", gro
     are packed into shards, every shard is one behaviour of the trace spec, and
     TLC's workers validate the shards in parallel.
     Returns (failing verdicts with 'group' and 'pos', stats)."""
+    timeout = int(os.environ.get("VERIF_TLC_TIMEOUT", "0") or 0) or timeout
     if groups is None:
         groups = [[e] for e in events]
     groups_idx = [gi for gi in range(len(groups)) if groups[gi]]
@@ -245,3 +246,39 @@ def save_replay(pid, payload):
 def trim(x, n=400):
     s = json.dumps(x, separators=(",", ":")) if not isinstance(x, str) else x
     return s if len(s) <= n else s[:n] + "..."
+
+
+# ------------------------------------------------ TLC as behaviour generator
+def tlc_generate(module, cfg_text, tag, simulate=None, seed=1, timeout=900, workers=1, marker="HIST"):
+    """Run spec/mc/<module>.tla with the given cfg text; the spec prints
+    <<"HIST", "<json>">> lines (PrintT from an invariant) - one per distinct
+    abstract state (BFS with VIEW) or per visited state (-simulate).
+    Returns (list of decoded JSON values, stats)."""
+    d = scratch(tag)
+    try:
+        copy_specs(d)
+        with open(os.path.join(d, "g.cfg"), "w") as f:
+            f.write(cfg_text)
+        extra = []
+        if simulate:
+            extra = ["-simulate", "num=%d" % simulate["num"], "-depth", str(simulate["depth"]), "-seed", str(seed)]
+        try:
+            r = subprocess.run(tlc_cmd(module, "g.cfg", workers=workers, extra=extra, xmx="6g"), cwd=d,
+                               capture_output=True, text=True, timeout=timeout)
+        except subprocess.TimeoutExpired:
+            raise Infra("TLC timeout generating behaviours from " + module)
+        ok = ("No error has been found" in r.stdout) or (simulate and "Finished" in r.stdout and "Error:" not in r.stdout)
+        if not ok:
+            raise Infra("behaviour generation from %s failed (%d):\n%s" % (module, r.returncode, r.stdout[-3000:]))
+        out, seen = [], set()
+        pre = '<<"%s", "' % marker
+        for line in r.stdout.splitlines():
+            if line.startswith(pre) and line.endswith('">>'):
+                s = line[len(pre):-3].replace('\\"', '"').replace("\\\\", "\\")
+                if s in seen:
+                    continue
+                seen.add(s)
+                out.append(json.loads(s))
+        return out, parse_tlc_stats(r.stdout)
+    finally:
+        shutil.rmtree(d, ignore_errors=True)
